@@ -26,6 +26,7 @@ import socket
 from common import Result, driver_batch, load_corpus, use_repo
 import framegen as fg
 import pipefake
+import producer
 from c09_payloads import PAYLOADS
 
 use_repo()
@@ -35,7 +36,6 @@ from pyplumio.frames import Request, get_frame_handler  # noqa: E402
 from pyplumio.protocol import AsyncProtocol  # noqa: E402
 from pyplumio.structures.network_info import EthernetParameters, NetworkInfo, WirelessParameters  # noqa: E402
 
-CFG = 7               # the model's token for "the configured network information"
 JUNK = 9999           # id reported for a delivered item that is no frame's content
 PV_REQ, CD_REQ, PV_RESP, DA_RESP = 64, 48, 192, 176
 PASSWORD, UID = 186, 185
@@ -75,6 +75,27 @@ def net_payload(net):
             + ip(wlan["ip"]) + ip(wlan["netmask"]) + ip(wlan["gateway"])
             + bytes([1, int(wlan["encryption"]), int(wlan["signal_quality"]), int(wlan["status"])])
             + b"\0" * 4 + bytes([len(ssid)]) + ssid)
+
+
+def net_word(case):
+    """the configured network information as the model takes it: the payload of a device-available
+    response, built by the wire layout here and decoded by the Lean network decoder in the driver"""
+    net = NETS[case["net"]] if isinstance(case["net"], int) else case["net"]
+    return net_payload(net).hex()
+
+
+def _ver_word():
+    """the code's `VersionInfo()` defaults (incl. SOFTWARE_VERSION), read from the implementation"""
+    from pyplumio.structures.program_version import VersionInfo
+    v = VersionInfo()
+    a, b, c = (int(x) for x in v.software.split(".", 2))
+    return f"{a}.{b}.{c}.{bytes(v.struct_tag).hex() or '-'}.{int(v.struct_version)}.{bytes(v.device_id).hex() or '-'}.{bytes(v.processor_signature).hex() or '-'}"
+
+
+try:
+    VER_WORD = _ver_word()
+except Exception:  # noqa: BLE001  (e.g. a version string with a non-numeric component: the model then has no version to encode)
+    VER_WORD = "70000.0.0.ffff.5.7a00.000000"
 
 
 # ------------------------------------------------------------------ frames
@@ -241,8 +262,7 @@ def run_case(case):
         for b in writer.frames:
             if len(b) >= 10 and b[7] in (PV_RESP, DA_RESP):
                 payload = b[8:-2]
-                netid = CFG if (b[7] == DA_RESP and payload == net_payload(net)) else 0
-                responses.append((b[7], b[3], netid, b[4], payload.hex()))
+                responses.append((b[7], b[3], b[4], b[5], b[6], payload.hex() or "-"))
         final = dict(delivered=list(delivered), unfinished=proto._queues.read._unfinished_tasks, alive=consumers_alive(),
                      responses=responses)
         t0 = loop.time()
@@ -272,7 +292,7 @@ def lst(xs):
 
 
 def show_snap(o, responses=None):
-    r = "-" if responses is None else lst(f"{k}.{rc}.{nt}" for k, rc, nt, _, _ in responses)
+    r = "-" if responses is None else lst(".".join(str(x) for x in resp) for resp in responses)
     return f"{lst(str(i) for i in o['delivered'])} {r} {o['unfinished']} {o['alive']}"
 
 
@@ -452,9 +472,9 @@ def random_net(rng):
 def evaluate(res, cases):
     runs = [run_case(c) for c in cases]
     model = driver_batch(
-        f"c09 1 {c['consumers']} {CFG} " + " | ".join(" ".join(ws) for ws in r["words"]) for c, r in zip(cases, runs))
+        f"c09 1 {c['consumers']} {net_word(c)} {VER_WORD} " + " | ".join(" ".join(ws) for ws in r["words"]) for c, r in zip(cases, runs))
     judge = driver_batch(
-        f"c09judge {c['consumers']} {CFG} " + " ".join(w for ws in r["words"] for w in ws if w != "H") + " | "
+        f"c09judge {c['consumers']} {net_word(c)} " + " ".join(w for ws in r["words"] for w in ws if w != "H") + " | "
         + show_snap(r["final"], r["final"]["responses"]) + f" {int(r['final']['shutdown'])}" for c, r in zip(cases, runs))
     for case, r, m, v in zip(cases, runs, model, judge):
         frames = r["frames"]
@@ -495,7 +515,7 @@ def evaluate(res, cases):
             res.fail("spec", inp, "every decodable frame delivered once, every controller request answered once (kind, recipient, "
                      "network info), unfinished=0, consumers alive, shutdown completes (C09.spec)",
                      dict(final=obs_final, shutdown=r["final"]["shutdown"], judge=v, words=r["words"],
-                          responses=[x[:4] for x in r["final"]["responses"]], extra=r["extra"]),
+                          extra=r["extra"]),
                      "C09.spec fails on what the implementation showed: " + v)
         if m == "bad-op":
             res.fail("corr", inp, "model answer", "bad-op", "driver rejected the request")
@@ -521,7 +541,7 @@ def spec_fails(case):
     words = [w for ws in r["words"] for w in ws if w != "H"]
     if not words:
         return False
-    v = driver_batch([f"c09judge {case['consumers']} {CFG} " + " ".join(words) + " | "
+    v = driver_batch([f"c09judge {case['consumers']} {net_word(case)} " + " ".join(words) + " | "
                       + show_snap(r["final"], r["final"]["responses"]) + f" {int(r['final']['shutdown'])}"])[0]
     return v.startswith("fail")
 
@@ -587,6 +607,18 @@ def run(ctx):
     if ctx.get("max_cases"):
         cases = cases[:ctx["max_cases"]]
     evaluate(res, cases)
+    # the producer stage against the producer machine (Model/Producer.lean): streams built from the same frames,
+    # write-fault scripts, puts by other tasks, foreign disconnects, end of stream / silence
+    streams = []
+    for c in cases[:400]:
+        frs = [fr for b in c["batches"] for fr in b]
+        if frs:
+            k = rng.randint(1, min(len(frs), 8))
+            streams.append(b"".join(wire(fr) for fr in frs[:k]))
+    producer.run_section(res, rng, 400 if ctx["tier"] == "quick" else 6000, "C09", streams)
+    res.rule += ("; producer stage: byte streams of such frames and noise x write-fault scripts (OSError / timeout at any cycle), "
+                 "puts by other tasks at any cycle boundary, foreign disconnects, end of stream or silence, compared with the "
+                 "producer machine at every quiescent point")
     return res
 
 
@@ -594,6 +626,11 @@ def replay(ctx):
     f = ctx["replay"].get("failure") or ctx["replay"].get("first_difference")
     inp = f["input"]
     res = Result("C09")
+    if inp.get("via") == "producer":
+        res.rule = "replay of one recorded producer run"
+        producer.replay_case(res, inp, "C09")
+        res.case(inp["stream"])
+        return res
     res.rule = "replay of one recorded frame sequence"
     evaluate(res, [dict(consumers=inp["consumers"], net=inp["net"], batches=inp["batches"], hold=bool(inp.get("hold")))])
     return res
